@@ -3,4 +3,4 @@ Require Extraction.
 Require Import ExtrOcamlBasic.
 From DV Require Import Lib.Base Wire.Message Robust.Bus Robust.Env Robust.Mini.
 Extraction Language OCaml.
-Extraction "model_robust.ml" mini_run mini_env_run mkCfg.
+Extraction "model_robust.ml" mini_run mini_env_run mini_env_run_lim mkCfg.
